@@ -43,7 +43,13 @@ type e2Ctl struct {
 	lastRel  *verifsched.Thread
 }
 
-func init() { bubbleStartHook = verifsched.NewEpoch }
+func init() {
+	// every bubble starts without a scheduler (an execution that died may have left one installed)
+	bubbleStartHook = func() {
+		verifsched.Install(nil)
+		verifsched.NewEpoch()
+	}
+}
 
 func newE2(prefix []int, horizon int) *e2Ctl {
 	s := verifsched.New()
